@@ -28,6 +28,11 @@ def rand_value(rng):
                            2 ** 31, 2 ** 32 - 1, 2 ** 32, 2 ** 63, 2 ** 64 - 2, 2 ** 64 - 1])
     if r < 0.7:
         return rng.randint(0, 70000)
+    if r < 0.85:
+        # stratified by the number of decimal digits (uniform 64-bit values almost always have 19 or 20)
+        d = rng.randint(1, 20)
+        lo, hi = (0 if d == 1 else 10 ** (d - 1)), min(10 ** d - 1, 2 ** 64 - 1)
+        return rng.choice([lo, hi, rng.randint(lo, hi)])
     return rng.randint(0, 2 ** 64 - 1)
 
 
@@ -82,6 +87,16 @@ class C11(Prop):
             lines.append("erc %d" % k)
         for v in [0, 1, 9, 10, 11, 99, 100, 101, 65535, 2 ** 32, 2 ** 64 - 1] + [rng.randint(0, 2 ** 64 - 1) for _ in range(300)]:
             lines.append("todec %d" % v)
+        # directed: every option kind x every decimal length 1..20 (lowest, highest, one random value of that length), in a request
+        # and in an OACK - the value must be written in full and read back
+        for d in range(1, 21):
+            lo, hi = (0 if d == 1 else 10 ** (d - 1)), min(10 ** d - 1, 2 ** 64 - 1)
+            for v in sorted({lo, hi, rng.randint(lo, hi)}):
+                lines.append("todec %d" % v)
+                for name in rfc.OPT_NAMES:
+                    for p in (("oack", [(name, v)]), ("rrq", b"f", b"octet", [(name, v)]), ("wrq", b"f", b"octet", [("blksize", 512), (name, v)])):
+                        lines.append("enc " + rfc.canon(p))
+                        lines.append("dec " + rfc.hx(rfc.encode(p)))
         return lines
 
     def oracle(self, line, impl):
